@@ -294,3 +294,50 @@ def alloc_search(repo, prop, tier, seed=1):
             shutil.rmtree(d, ignore_errors=True)
         fcntl.flock(lockf, fcntl.LOCK_UN)
         lockf.close()
+
+
+def topo_search(repo, prop, tier, seed=1):
+    """C19 bounded replay (replay/topo_driver): random simulations / gate chains on the real `des` crate; topology views and queries against a reference."""
+    t0 = time.time()
+    os.makedirs(WORK_BASE, exist_ok=True)
+    lockf = open(os.path.join(WORK_BASE, "rt_driver.lock"), "w")
+    fcntl.flock(lockf, fcntl.LOCK_EX)
+    try:
+        count = 300000 if tier == "thorough" else 20000
+        res = {"what": "bounded replay of C19 on the real `des` crate: %d seeded random simulations (2..8 modules, some nested; 0..16 gate chains with 0..3 transit gates, every 7th scenario one chain with 17..24 transit gates; self-links, parallel links, unconnected gates; hops connected in random order and orientation). Globals::topology (= Topology::from_modules) and Topology::spanned from a random root are compared node for node and edge for edge (owner of the endpoint -> owner of the far end, labelled with exactly those two gates) with the list of chains the driver built; connected / bidirectional (also after filter_edges), dijkstra from every node (entries for exactly the reachable nodes other than the source; first hop leaves the source towards a node one hop closer), filter_nodes (random subsets), filter_edges and edges_for against a reference implementation" % count,
+               "bound": "%d random scenarios; seed %d" % (count, seed), "labelled": "bounded", "counts_as_proof": False}
+        exe, err = _build_rt(repo, "topo_driver")
+        if exe is None:
+            res.update({"status": "not_run", "reason": "driver does not build against this tree: " + err, "wall_s": round(time.time() - t0, 2)})
+            return res
+        try:
+            p = subprocess.run([exe, "search", str(count), str(seed)], stdout=subprocess.PIPE, stderr=subprocess.PIPE, timeout=900)
+        except subprocess.TimeoutExpired:
+            res.update({"status": "mismatch", "mismatch": {"mismatch": True, "kind": "topology-call-does-not-return", "props": "C19", "expected": "every scenario terminates", "observed": "no result within 900 s"}, "wall_s": round(time.time() - t0, 2)})
+            return res
+        line = (p.stdout.decode("utf8", "replace").strip().splitlines() or ["{}"])[-1]
+        try:
+            j = json.loads(line)
+        except Exception:
+            j = {}
+        res["wall_s"] = round(time.time() - t0, 2)
+        res["cmd"] = "topo_driver search %d %d   (built from replay/topo_driver against %s/des)" % (count, seed, repo)
+        if j.get("mismatch"):
+            res.update({"status": "mismatch", "mismatch": j})
+        elif "scenarios" in j:
+            res.update({"status": "no_mismatch", "scenarios": j["scenarios"]})
+        else:
+            err = p.stderr.decode("utf8", "replace")
+            pan = [l for l in err.splitlines() if "panicked at" in l]
+            if pan and "des/src/net/topology.rs" in pan[0]:
+                res.update({"status": "mismatch", "mismatch": {"mismatch": True, "kind": "topology-call-panicked", "props": "C19", "expected": "views and queries return for every simulation built through the public API", "observed": (pan[0] + " " + err[err.find(pan[0]) + len(pan[0]):][:200]).replace('"', "'")}})
+            else:
+                res.update({"status": "not_run", "reason": "driver crashed: " + err[-300:]})
+        return res
+    finally:
+        if repo != "/repo":
+            tag = hashlib.sha1(repo.encode()).hexdigest()[:8]
+            shutil.rmtree(os.path.join(WORK_BASE, "topo_driver-" + tag), ignore_errors=True)
+            shutil.rmtree(os.path.join(WORK_BASE, "des-drivers-target-" + tag), ignore_errors=True)
+        fcntl.flock(lockf, fcntl.LOCK_UN)
+        lockf.close()
